@@ -83,7 +83,8 @@ def run(ctx):
         ctx.check(ok, "per-asset", name + "|args", c.loc(), "arguments forwarded by name (%s)%s" % (", ".join(c.formals[1:]), "; id = order_id.1" if mode == "id" else ""),
                   "Market::%s forwards %s" % (name, c.text()))
         if name in ("create_order", "create_and_place_order"):
-            r = q.ret()
+            from analysis.beta import normalize
+            r = normalize(m.w, q.ret())   # `?` + Ok((asset, id)) and Result::map(|id| (asset, id)) read alike
             oks = [x for x in walk(r) if x[0] == "agg" and x[2].endswith("Result::Ok")]
             okr = len(oks) == 1 and oks[0][3][0][0] == "agg" and oks[0][3][0][1] == "tuple" and len(oks[0][3][0][3]) == 2
             if okr:
@@ -104,30 +105,27 @@ def run(ctx):
         if f is None:
             ctx.lost("all-asset", "Market::" + name)
             continue
-        q = m.q(f)
-        cl = q.closures()
-        ff = q.calls("from_fn")
-        if len(cl) != 1 or len(ff) != 1 or not same(q.ret(), ff[0].result):
-            ctx.bad("all-asset", name + "|shape", ctx.loc(f), "Market::%s is not `array::from_fn(closure)`" % name)
+        # element expression E(i) of `array::from_fn(..)`: closures beta-reduced, private helpers (e.g. a `map_books(query)`
+        # combinator) inlined – the rule reads what element i IS, not how the closure is spelled
+        from analysis.beta import from_fn_element
+        q = m.qi(f)
+        E = from_fn_element(m.w, q.ret(), ("var", "i"))
+        if E is None:
+            ctx.bad("all-asset", name + "|shape", ctx.loc(f), "Market::%s is not `array::from_fn(<per-index expression>)` (got %s)" % (name, render(q.ret())[:120]))
             continue
-        cq, ops, names, _b = cl[0]
-        ctx.analysed_fns.add(cq.fn.path)
+        for (cq, _ops, _names, _b) in q.closures():
+            ctx.analysed_fns.add(cq.fn.path)
         n_cl += 1
-        idxs = []
-        for c in cq.calls():
-            for a in c.args[:1]:
-                for x in walk(a):
-                    if x[0] == "index" and any(y[0] == "field" and y[2] == BF for y in walk(x[1])):
-                        idxs.append((c, x[2]))
+        idxs = [x[2] for x in walk(E) if x[0] == "index" and any(y[0] == "field" and y[2] == BF for y in walk(x[1]))]
         n_ix += len(idxs)
-        ok = bool(idxs) and all(i[0] == "param" and i[1] == 2 for _c, i in idxs)
-        ctx.check(ok, "all-asset", name + "|index", ctx.loc(f), "every book access in the closure uses the closure index (%d accesses)" % len(idxs),
-                  "Market::%s indexes the book array with %s" % (name, sorted({render(i) for _c, i in idxs})))
+        ok = bool(idxs) and all(i == ("var", "i") for i in idxs)
+        ctx.check(ok, "all-asset", name + "|index", ctx.loc(f), "every book access in element i uses index i (%d accesses)" % len(idxs),
+                  "Market::%s indexes the book array with %s" % (name, sorted({render(i) for i in idxs})))
         if target is not None:
-            calls = [c for c in cq.calls() if c.target is not None and (c.target.impl_adt or "").endswith("orderbook::OrderBook")]
-            ok = len(calls) == 1 and calls[0].name == target and same(cq.ret(), calls[0].result) and not calls[0].guards
+            ok = E[0] == "call" and E[4] == target and "OrderBook" in E[1] and len(E[2]) >= 1 and E[2][0][0] == "index" and E[2][0][2] == ("var", "i") \
+                and fld(E[2][0][1], BF)
             ctx.check(ok, "all-asset", name + "|query", ctx.loc(f), "element i = order_books[i].%s()" % target,
-                      "Market::%s element is %s" % (name, render(cq.ret())))
+                      "Market::%s element is %s" % (name, render(E)[:160]))
     ctx.check(n_cl >= 11 and n_ix >= 15, "all-asset", "census", "-", "%d all-asset closures, %d book accesses" % (n_cl, n_ix))
 
     # ---------------------------------------------------------------- fan-out
@@ -136,7 +134,7 @@ def run(ctx):
         if f is None:
             ctx.lost("fan-out", "Market::" + name)
             continue
-        q = m.q(f)
+        q = m.qi(f)
         from .stepmodel import fanout_ok
         ok, c0, detail = fanout_ok(m, q, BF, target)
         if ok and name == "set_time":
